@@ -55,6 +55,9 @@ Gen/Testing.vos Gen/Testing.vok Gen/Testing.required_vos: Gen/Testing.v Core/Bas
 Gen/Transformer.vo Gen/Transformer.glob Gen/Transformer.v.beautified Gen/Transformer.required_vo: Gen/Transformer.v 
 Gen/Transformer.vio: Gen/Transformer.v 
 Gen/Transformer.vos Gen/Transformer.vok Gen/Transformer.required_vos: Gen/Transformer.v 
+Gen/LintPin.vo Gen/LintPin.glob Gen/LintPin.v.beautified Gen/LintPin.required_vo: Gen/LintPin.v 
+Gen/LintPin.vio: Gen/LintPin.v 
+Gen/LintPin.vos Gen/LintPin.vok Gen/LintPin.required_vos: Gen/LintPin.v 
 Sem/Scenario.vo Sem/Scenario.glob Sem/Scenario.v.beautified Sem/Scenario.required_vo: Sem/Scenario.v Core/Base.vo Core/Prog.vo Py/Sig.vo Sem/Interp.vo Sem/InterpFacts.vo Sem/Model.vo Sem/Show.vo Gen/State.vo Sem/ScnSwitch.vo Gen/Validators.vo Gen/HasPatcher.vo Gen/Contracts.vo Gen/Dispatch.vo
 Sem/Scenario.vio: Sem/Scenario.v Core/Base.vio Core/Prog.vio Py/Sig.vio Sem/Interp.vio Sem/InterpFacts.vio Sem/Model.vio Sem/Show.vio Gen/State.vio Sem/ScnSwitch.vio Gen/Validators.vio Gen/HasPatcher.vio Gen/Contracts.vio Gen/Dispatch.vio
 Sem/Scenario.vos Sem/Scenario.vok Sem/Scenario.required_vos: Sem/Scenario.v Core/Base.vos Core/Prog.vos Py/Sig.vos Sem/Interp.vos Sem/InterpFacts.vos Sem/Model.vos Sem/Show.vos Gen/State.vos Sem/ScnSwitch.vos Gen/Validators.vos Gen/HasPatcher.vos Gen/Contracts.vos Gen/Dispatch.vos
@@ -79,6 +82,12 @@ Sem/ImportModel.vos Sem/ImportModel.vok Sem/ImportModel.required_vos: Sem/Import
 Sem/DecorateModel.vo Sem/DecorateModel.glob Sem/DecorateModel.v.beautified Sem/DecorateModel.required_vo: Sem/DecorateModel.v Gen/Transformer.vo
 Sem/DecorateModel.vio: Sem/DecorateModel.v Gen/Transformer.vio
 Sem/DecorateModel.vos Sem/DecorateModel.vok Sem/DecorateModel.required_vos: Sem/DecorateModel.v Gen/Transformer.vos
+Sem/LintModel.vo Sem/LintModel.glob Sem/LintModel.v.beautified Sem/LintModel.required_vo: Sem/LintModel.v Core/Base.vo Sem/Model.vo Gen/HasPatcher.vo Gen/Rules.vo
+Sem/LintModel.vio: Sem/LintModel.v Core/Base.vio Sem/Model.vio Gen/HasPatcher.vio Gen/Rules.vio
+Sem/LintModel.vos Sem/LintModel.vok Sem/LintModel.required_vos: Sem/LintModel.v Core/Base.vos Sem/Model.vos Gen/HasPatcher.vos Gen/Rules.vos
+Sem/ScnLint.vo Sem/ScnLint.glob Sem/ScnLint.v.beautified Sem/ScnLint.required_vo: Sem/ScnLint.v Core/Base.vo Sem/Show.vo Sem/LintModel.vo
+Sem/ScnLint.vio: Sem/ScnLint.v Core/Base.vio Sem/Show.vio Sem/LintModel.vio
+Sem/ScnLint.vos Sem/ScnLint.vok Sem/ScnLint.required_vos: Sem/ScnLint.v Core/Base.vos Sem/Show.vos Sem/LintModel.vos
 Sem/ScnSwitch.vo Sem/ScnSwitch.glob Sem/ScnSwitch.v.beautified Sem/ScnSwitch.required_vo: Sem/ScnSwitch.v Core/Base.vo Core/Prog.vo Sem/Interp.vo Sem/Show.vo Gen/State.vo
 Sem/ScnSwitch.vio: Sem/ScnSwitch.v Core/Base.vio Core/Prog.vio Sem/Interp.vio Sem/Show.vio Gen/State.vio
 Sem/ScnSwitch.vos Sem/ScnSwitch.vok Sem/ScnSwitch.required_vos: Sem/ScnSwitch.v Core/Base.vos Core/Prog.vos Sem/Interp.vos Sem/Show.vos Gen/State.vos
@@ -208,3 +217,9 @@ Sem/ScnDecorate.vos Sem/ScnDecorate.vok Sem/ScnDecorate.required_vos: Sem/ScnDec
 Props/C19.vo Props/C19.glob Props/C19.v.beautified Props/C19.required_vo: Props/C19.v Gen/Transformer.vo Sem/DecorateModel.vo Thm/C19/Lines.vo Thm/C19/Render.vo Thm/C19/Plan.vo
 Props/C19.vio: Props/C19.v Gen/Transformer.vio Sem/DecorateModel.vio Thm/C19/Lines.vio Thm/C19/Render.vio Thm/C19/Plan.vio
 Props/C19.vos Props/C19.vok Props/C19.required_vos: Props/C19.v Gen/Transformer.vos Sem/DecorateModel.vos Thm/C19/Lines.vos Thm/C19/Render.vos Thm/C19/Plan.vos
+Thm/C18/Lint.vo Thm/C18/Lint.glob Thm/C18/Lint.v.beautified Thm/C18/Lint.required_vo: Thm/C18/Lint.v Core/Base.vo Sem/Model.vo Gen/HasPatcher.vo Gen/Rules.vo Sem/LintModel.vo
+Thm/C18/Lint.vio: Thm/C18/Lint.v Core/Base.vio Sem/Model.vio Gen/HasPatcher.vio Gen/Rules.vio Sem/LintModel.vio
+Thm/C18/Lint.vos Thm/C18/Lint.vok Thm/C18/Lint.required_vos: Thm/C18/Lint.v Core/Base.vos Sem/Model.vos Gen/HasPatcher.vos Gen/Rules.vos Sem/LintModel.vos
+Props/C18.vo Props/C18.glob Props/C18.v.beautified Props/C18.required_vo: Props/C18.v Core/Base.vo Sem/Model.vo Gen/HasPatcher.vo Gen/Rules.vo Gen/LintPin.vo Sem/LintModel.vo Thm/C18/Lint.vo
+Props/C18.vio: Props/C18.v Core/Base.vio Sem/Model.vio Gen/HasPatcher.vio Gen/Rules.vio Gen/LintPin.vio Sem/LintModel.vio Thm/C18/Lint.vio
+Props/C18.vos Props/C18.vok Props/C18.required_vos: Props/C18.v Core/Base.vos Sem/Model.vos Gen/HasPatcher.vos Gen/Rules.vos Gen/LintPin.vos Sem/LintModel.vos Thm/C18/Lint.vos
